@@ -79,7 +79,7 @@ fn run2(case: &Case, cx: &mut Cx) -> CheckResult {
         let world = |sz: ImageSize, x: i32, y: i32| sz.transform_point(Point2::new(x, y));
         let mut changed: Option<bool> = None;
         // sub-operations in the order the canvas performs them
-        let mut do_begin = |c: &mut Canvas2, drag: &mut Option<DragModel>, x: i32, y: i32, sz: ImageSize, szt| {
+        let do_begin = |c: &mut Canvas2, drag: &mut Option<DragModel>, x: i32, y: i32, sz: ImageSize, szt| {
             if drag.is_none() {
                 let v = c.view();
                 let g = v.world_to_model().transform_point(&world(sz, x, y));
